@@ -91,6 +91,7 @@ def run(ctx):
     ctx.sample({"row": list(specs[900][:3]), "observed": elem.short(out[(specs[900][0], tuple(specs[900][1]), specs[900][2])])})
 
     numpy_scalars(ctx)
+    concat_promotion(ctx)
     shape_independence(ctx)
     # static theorems
     f = ctx.work / "C03_static.v"
@@ -176,6 +177,44 @@ def numpy_scalars(ctx):
 FN_SHAPES = [[], [1], [0], [3], [2, 3], [1, 1]]
 FN_FUNCS = ["sum", "prod", "mean", "var", "std", "min", "max", "all", "any", "cumulative_sum", "argmax", "argmin", "sort", "argsort", "reshape", "flip",
             "expand_dims", "clip", "where_self", "copy", "sum_axis_last", "sum_keepdims", "mean_axis0", "max_keepdims"]
+
+
+def concat_promotion(ctx):
+    """Joining functions promote like every other function, whatever the extents: concat / stack of two operands of any
+    two dtypes give the same result dtype (or the same TypeError) when either operand is statically empty."""
+    from vlib import family, ops
+    dts = ["int8", "int32", "uint8", "float32", "float64", "bool", "utf8", "nint32", "int64"]
+    cases = []
+    for a in dts:
+        for b in dts:
+            for sa, sb in (([3], [3]), ([0], [3]), ([3], [0]), ([0], [0])):
+                mk = lambda d, sh: {"dtype": d, "shape": sh, "data": (["s:a"] * sh[0] if "utf8" in d else [True] * sh[0] if d == "bool" else [ops.fhex(1.0)] * sh[0] if "float" in d else [1] * sh[0]),
+                                    **({"mask": [False] * sh[0]} if d.startswith("n") else {})}
+                cases.append({"id": f"cp-{a}-{b}-{sa[0]}{sb[0]}", "inputs": {"x": mk(a, sa), "y": mk(b, sb)}, "impl": "out = ndx.concat([x, y])", "oracle": None, "eager": True,
+                              "lazy_subsets": [{"names": ["x", "y"]}], "meta": {"func": "concat", "dtype": a, "dtype2": b, "dclass": family.dclass(a), "shapes": f"{sa}{sb}"}})
+    res = core.run_cases("harness.h_ops", cases, workers=14, per_case_timeout=120)
+    table = {}
+    for c in cases:
+        r = res.get(c["id"]) or {}
+        for mode, o in (("eager", r.get("eager") or {}), ("traced", (r.get("traced") or [{}])[0])):
+            if "raise" in o:
+                out = "!" + o["raise"]
+            elif "ok" in o:
+                out = o["ok"].get("dtype")
+            elif "meta" in o:
+                m_ = o["meta"]
+                out = m_.get("dtype") if isinstance(m_, dict) else None
+            else:
+                out = None
+            table.setdefault((c["meta"]["dtype"], c["meta"]["dtype2"]), {})[(c["meta"]["shapes"], mode)] = out
+        ctx.count(("cp", c["id"]), nontrivial=True)
+    for (a, b), obs in table.items():
+        seen = {v for v in obs.values() if v is not None}
+        # onnxruntime errors on particular extents are other properties' business; dtypes / TypeErrors must agree
+        seen_n = {v for v in seen if not v.startswith("!Other")}
+        if len(seen_n) > 1:
+            ctx.finding({"site": "function-dtype", "func": "concat", "dtype": a, "dtype2": b, "law": "dtype-independent-of-shape"},
+                        f"concat([{a}, {b}]): the outcome depends on the extents of the operands: {sorted(seen_n)}", {"dtypes": [a, b], "outcome_by_shapes_and_mode": {str(k): v for k, v in obs.items()}})
 
 
 def shape_independence(ctx):
